@@ -3,6 +3,7 @@ package protocol
 import (
 	"bytes"
 	"encoding/binary"
+	"errors"
 )
 
 type LLDP struct {
@@ -12,7 +13,8 @@ type LLDP struct {
 }
 
 func (d *LLDP) Len() (n uint16) {
-	return 15
+	// chassis and port TLVs: 2-byte header, subtype, id; TTL TLV: 2-byte header, seconds
+	return uint16(3+len(d.Chassis.Data)) + uint16(3+len(d.Port.Data)) + 4
 }
 
 func (d *LLDP) Read(b []byte) (n int, err error) {
@@ -21,11 +23,11 @@ func (d *LLDP) Read(b []byte) (n int, err error) {
 		return
 	}
 	n += m
-	if o, err = d.Port.Read(b); o == 0 {
+	if o, err = d.Port.Read(b[n:]); o == 0 {
 		return
 	}
 	n += o
-	if p, err = d.Chassis.Read(b); p == 0 {
+	if p, err = d.TTL.Read(b[n:]); p == 0 {
 		return
 	}
 	n += p
@@ -42,7 +44,7 @@ func (d *LLDP) Write(b []byte) (n int, err error) {
 		return
 	}
 	n += o
-	if p, err = d.Chassis.Write(b[n:]); p == 0 {
+	if p, err = d.TTL.Write(b[n:]); p == 0 {
 		return
 	}
 	n += p
@@ -92,11 +94,15 @@ func (t *ChassisTLV) Write(b []byte) (n int, err error) {
 		return
 	}
 	n += 1
-	t.Data = make([]uint8, t.Length)
+	// the TLV length counts the subtype byte
+	if t.Length < 1 {
+		return n, errors.New("LLDP TLV too short for its subtype")
+	}
+	t.Data = make([]uint8, t.Length-1)
 	if err = binary.Read(buf, binary.BigEndian, &t.Data); err != nil {
 		return
 	}
-	n += int(t.Length)
+	n += int(t.Length) - 1
 	return
 }
 
@@ -143,11 +149,15 @@ func (t *PortTLV) Write(b []byte) (n int, err error) {
 		return
 	}
 	n += 1
-	t.Data = make([]uint8, t.Length)
+	// the TLV length counts the subtype byte
+	if t.Length < 1 {
+		return n, errors.New("LLDP TLV too short for its subtype")
+	}
+	t.Data = make([]uint8, t.Length-1)
 	if err = binary.Read(buf, binary.BigEndian, &t.Data); err != nil {
 		return
 	}
-	n += int(t.Length)
+	n += int(t.Length) - 1
 	return
 }
 
